@@ -440,6 +440,24 @@ def c13_4(ctx: Ctx) -> RuleResult:
     res.add(m, m.node, "a new ConstraintInfo is constructed from the differences, so __post_init__ recomputes the violations in the user domain", ok,
             "" if ok else "violations are not recomputed after the back-transformation", construct="transform: recompute violations")
     # violations are not copied over as differences: asdict includes them -> the constructor must recompute (fields default None, post_init overwrites)
+    # ... which it does only if __post_init__ derives every violation field from the difference fields of its family (or the
+    # transform stores a recomputed value under the violation key itself)
+    from .c18 import field_stores
+
+    pstores = {}
+    for pm, _n, fld, v, _h in field_stores(ctx, c):
+        if pm.name == "__post_init__":
+            pstores.setdefault(fld, []).append(v)
+    for fam in table:
+        vf = f"{fam}_violation"
+        if vf not in c.fields:
+            continue
+        from_diffs = any(contains(v, lambda s_, fam=fam: s_[0] == "attr" and s_[2] in (f"{fam}_lower", f"{fam}_upper")) for v in pstores.get(vf, []))
+        in_transform = any(contains(t_, lambda s_: s_[0] == "call") for _n, t_ in kstores.get(vf, []))
+        ok = from_diffs or in_transform
+        res.add(m, m.node, f"`{vf}` of the back-transformed object is recomputed from the back-transformed {fam} differences", ok,
+                "" if ok else f"neither __post_init__ nor transform_from_optimizer computes `{vf}` from the {fam} differences: the object built from the back-transformed "
+                "differences keeps the violation of the optimizer domain", construct=f"transform: {vf} recomputed")
     res.floor = 4
     return res
 
@@ -463,9 +481,13 @@ def c13_6(ctx: Ctx) -> RuleResult:
     mapped back by the scaler's companion maps (scales on bound differences, row scaling on linear ones)."""
     from .c11 import c11_2
 
+    from .c11 import c11_4
+
     r = c11_2(ctx)
     r.instances = [i for i in r.instances if "diffs" in i.construct]
+    # ... and the result object hands its constraint information to that mapping on every return
+    r.instances += [i for i in c11_4(ctx).instances if "delegates constraint_info" in i.construct]
     for i in r.instances:
         i.rule = "C13.6"
-    r.rule, r.title, r.floor = "C13.6", "user-domain differences: bound differences * scales, linear differences * row scaling, each under the test of the field it applies", 2
+    r.rule, r.title, r.floor = "C13.6", "user-domain differences: bound differences * scales, linear differences * row scaling, each under the test of the field it applies; results delegate their constraint information", 3
     return r
